@@ -38,10 +38,13 @@ static struct {
 	int peer_done, client_done;
 	unsigned char *file_model; size_t file_size;
 	int hard_error_injected, cleanup_before_cancelled, peer_hangs_up, peer_hung_up;
+	int conv;                                   // dispatch_read / dispatch_write instead of a channel
+	int derived, base_cleanup_count; dispatch_io_t base;   // channel made with dispatch_io_create_with_io from one that is closed at once
 } X;
 
 static const char *never_done_clause(void);
 static void c14_file_run(void);
+static void c14_conv_run(void);
 static char known_clause[64], known_msg[400];
 // deviations recorded as known findings (F13, F14, F16): remember the first, keep judging the rest of the run
 static void known_dev(const char *clause, const char *fmt, ...) {
@@ -144,7 +147,8 @@ static void submit_op(ioop *op) {
 	h_log("submit #%d %s len=%zu off=%ld%s", op->idx, ion[op->kind], op->len, (long)op->off, op->after_close ? " (after close)" : "");
 	switch (op->kind) {
 	case IO_READ:
-		dispatch_io_read(X.ch, op->off, op->len, X.hq, ^(bool done, dispatch_data_t data, int error) { op_handler(op, done, data, error); });
+		if (X.conv) dispatch_read(X.fd, op->len, X.hq, ^(dispatch_data_t data, int error) { op_handler(op, true, data, error); });
+		else dispatch_io_read(X.ch, op->off, op->len, X.hq, ^(bool done, dispatch_data_t data, int error) { op_handler(op, done, data, error); });
 		break;
 	case IO_WRITE: {
 		unsigned char *buf = malloc(op->len ? op->len : 1);
@@ -156,7 +160,8 @@ static void submit_op(ioop *op) {
 			dispatch_data_t a = dispatch_data_create_subrange(d, 0, op->len / 2), b = dispatch_data_create_subrange(d, op->len / 2, op->len - op->len / 2);
 			dispatch_data_t c = dispatch_data_create_concat(a, b); dispatch_release(a); dispatch_release(b); dispatch_release(d); d = c;
 		}
-		dispatch_io_write(X.ch, op->off, d, X.hq, ^(bool done, dispatch_data_t data, int error) { op_handler(op, done, data, error); });
+		if (X.conv) dispatch_write(X.fd, d, X.hq, ^(dispatch_data_t data, int error) { op_handler(op, true, data, error); });
+		else dispatch_io_write(X.ch, op->off, d, X.hq, ^(bool done, dispatch_data_t data, int error) { op_handler(op, done, data, error); });
 		dispatch_release(d);
 		break; }
 	case IO_BARRIER:
@@ -209,7 +214,8 @@ static void judge(void) {
 				h_viol("wrong-bytes", "io_read #%d: byte %zu of its data is 0x%02x, the stream has 0x%02x at position %zu (bytes lost, duplicated or reordered)", op->idx, k, op->got[k], pat(pos + k), pos + k);
 			pos += op->ngot;
 			if (op->after_close && (op->ngot || op->err != ECANCELED)) (op->len == 0 ? known_dev : (void (*)(const char *, const char *, ...))h_viol)(op->len == 0 ? "zero-length-op-closed" : "closed-channel", "io_read #%d (length %zu) was scheduled on a closed channel but completed with error %d and %zu bytes", op->idx, op->len, op->err, op->ngot);
-			if (!op->err && !X.stop && op->ngot < op->len && !(X.peer_closes && pos >= X.peer_total) && !hard)
+			// (a dispatch_read completes with what is available once it has read something: no short-read clause for it)
+			if (!X.conv && !op->err && !X.stop && op->ngot < op->len && !(X.peer_closes && pos >= X.peer_total) && !hard)
 				h_viol("short-read", "io_read #%d completed without error with %zu of %zu bytes although the stream had not ended", op->idx, op->ngot, op->len);
 		}
 		if (pos != nlog && !hard && !X.stop)
@@ -274,12 +280,14 @@ static void c14_run(void) {
 	h_stepcap_clause = stepcap_clause;
 	bool big = RC.cfg & CFG_THOROUGH;
 	if (g_chance(1, 6)) { c14_file_run(); return; }
+	if (g_chance(1, 8)) { c14_conv_run(); return; }
 	X.kind = (int)g_n(CH_N - 1);   // file channels: see c14_file below
 	X.is_stream = 1; X.is_read = (X.kind == CH_PIPE_READ || X.kind == CH_SOCK_READ);
 	X.hq_serial = g_chance(2, 3);
 	X.peer_total = g_chance(1, 5) ? 0 : (size_t)g_range(1, big ? 30000 : 9000);
 	X.peer_chunk = (size_t)g_range(1, 3000); X.peer_pause = (uint64_t)g_range(0, 120) * USEC; X.peer_closes = g_chance(2, 3);
 	X.peer_hangs_up = !X.is_read && g_chance(1, 4);
+	X.derived = g_chance(1, 6);
 	X.nops = g_range(1, 6);
 	int idx = 0;
 	for (int i = 0; i < X.nops; i++) {
@@ -293,7 +301,7 @@ static void c14_run(void) {
 		else op->kind = IO_STOP;
 		op->got = malloc(MAXBYTES);
 	}
-	h_sample("%s; handlers on a %s queue; peer: %zu bytes in chunks of %zu every %lu us%s\n", chn[X.kind], X.hq_serial ? "serial" : "global", X.peer_total, X.peer_chunk, (unsigned long)(X.peer_pause / 1000),
+	h_sample("%s%s; handlers on a %s queue; peer: %zu bytes in chunks of %zu every %lu us%s\n", chn[X.kind], X.derived ? " (made with dispatch_io_create_with_io from a channel that is closed at once)" : "", X.hq_serial ? "serial" : "global", X.peer_total, X.peer_chunk, (unsigned long)(X.peer_pause / 1000),
 		X.is_read ? (X.peer_closes ? ", then closes" : ", stays open") : (X.peer_hangs_up ? ", then closes its reading end" : ", keeps reading"));
 	for (int i = 0; i < X.nops; i++) if (op_on(X.ops[i].idx)) {
 		ioop *op = &X.ops[i];
@@ -322,6 +330,14 @@ static void c14_run(void) {
 		h_progress();
 	});
 	if (!X.ch) h_viol("create", "dispatch_io_create failed");
+	if (X.derived) {
+		// the operations go through a channel derived from the first one, which is closed and released at once: the
+		// descriptor must stay open and usable until the derived channel is done, and each cleanup handler runs once
+		X.base = X.ch;
+		X.ch = dispatch_io_create_with_io(DISPATCH_IO_STREAM, X.base, X.hq, ^(int error) { (void)error; X.base_cleanup_count++; h_log("cleanup handler of the derived channel"); h_progress(); });
+		if (!X.ch) h_viol("create", "dispatch_io_create_with_io failed");
+		dispatch_io_close(X.base, 0); dispatch_release(X.base);
+	}
 	sim_thread *th[2];
 	th[0] = sim_spawn(peer_thread, NULL, "peer");
 	th[1] = sim_spawn(client_thread, NULL, "io-client");
@@ -352,11 +368,73 @@ static void c14_run(void) {
 	if (X.peer_fd >= 0 && !X.is_read) { /* let the consumer drain */ }
 	h_settle(20 * MSEC);
 	if (X.cleanup_count != 1) h_viol("cleanup-count", "the cleanup handler ran %d times", X.cleanup_count);
+	if (X.derived) {
+		uint64_t t0 = sim_now(); while (!X.base_cleanup_count && sim_now() - t0 < LIVENESS_NS) sim_sleep_ns(20 * MSEC);
+		if (X.base_cleanup_count != 1) h_viol("cleanup-count", "the cleanup handler of the channel made with dispatch_io_create_with_io ran %d times", X.base_cleanup_count);
+	}
 	if (!X.is_read) { close(X.fd); uint64_t t0 = sim_now(); while (!X.peer_done && sim_now() - t0 < 2 * NSEC) sim_sleep_ns(20 * MSEC); }
 	judge();
 	if (known_clause[0]) h_viol(known_clause, "%s", known_msg);
 	size_t tot = 0; for (int i = 0; i < X.nops; i++) tot += X.ops[i].ngot;
-	RES.counters[0] = X.nops; RES.counters[1] = (int64_t)tot; RES.counters[2] = sim_io_ncalls; RES.counters[3] = X.stop;
+	RES.counters[0] = X.nops; RES.counters[1] = (int64_t)tot; RES.counters[2] = sim_io_ncalls; RES.counters[3] = X.stop; RES.counters[6] = X.derived;
+	RES.nontrivial = sim_io_ncalls >= 2 && sim_st.switches > 10;
+}
+
+/* ---- dispatch_read / dispatch_write on a pipe or socket: each call is one operation whose handler runs once ---- */
+static void c14_conv_run(void) {
+	bool big = RC.cfg & CFG_THOROUGH;
+	X.conv = 1;
+	X.kind = (int)g_n(CH_N - 1); X.is_stream = 1; X.is_read = (X.kind == CH_PIPE_READ || X.kind == CH_SOCK_READ);
+	X.hq_serial = g_chance(2, 3);
+	X.peer_total = g_chance(1, 6) ? 0 : (size_t)g_range(1, big ? 30000 : 9000);
+	X.peer_chunk = (size_t)g_range(1, 3000); X.peer_pause = (uint64_t)g_range(0, 120) * USEC;
+	X.peer_closes = 1;                            // end of file completes whatever the reads still ask for
+	X.peer_hangs_up = !X.is_read && g_chance(1, 5);
+	X.nops = g_range(1, 5);
+	int idx = 0;
+	for (int i = 0; i < X.nops; i++) {
+		ioop *op = &X.ops[i]; memset(op, 0, sizeof *op); op->idx = idx++; op->got = malloc(MAXBYTES);
+		if (g_chance(1, 5)) { op->kind = IO_PAUSE; op->pause = (uint64_t)g_range(5, 400) * USEC; continue; }
+		op->kind = X.is_read ? IO_READ : IO_WRITE;
+		op->len = g_chance(1, 25) ? 0 : (size_t)g_range(1, big ? 20000 : 6000);
+		if (X.is_read && g_chance(1, 6)) op->len = SIZE_MAX;
+	}
+	h_sample("dispatch_%s on a %s; handlers on a %s queue; peer: %zu bytes in chunks of %zu every %lu us%s\n", X.is_read ? "read" : "write", (X.kind == CH_PIPE_READ || X.kind == CH_PIPE_WRITE) ? "pipe" : "socket",
+		X.hq_serial ? "serial" : "global", X.peer_total, X.peer_chunk, (unsigned long)(X.peer_pause / 1000), X.is_read ? ", then closes" : (X.peer_hangs_up ? ", then closes its reading end" : ", keeps reading"));
+	for (int i = 0; i < X.nops; i++) if (op_on(X.ops[i].idx)) {
+		ioop *op = &X.ops[i];
+		h_sample(" #%d %s", op->idx, op->kind == IO_PAUSE ? "pause" : X.is_read ? "dispatch_read" : "dispatch_write");
+		if (op->kind != IO_PAUSE) { if (op->len == SIZE_MAX) h_sample("(SIZE_MAX)"); else h_sample("(%zu)", op->len); }
+		h_sample("\n");
+	}
+	h_announce();
+	int fds[2];
+	if (X.kind == CH_PIPE_READ || X.kind == CH_PIPE_WRITE) { if (pipe2(fds, O_NONBLOCK)) h_viol("harness", "pipe"); if (X.kind == CH_PIPE_WRITE) { int t = fds[0]; fds[0] = fds[1]; fds[1] = t; } }
+	else if (socketpair(AF_UNIX, SOCK_STREAM | SOCK_NONBLOCK, 0, fds)) h_viol("harness", "socketpair");
+	X.fd = fds[0]; X.peer_fd = fds[1];
+	if (g_chance(3, 4)) {
+		if (X.kind == CH_PIPE_READ || X.kind == CH_PIPE_WRITE) fcntl(X.is_read ? X.peer_fd : X.fd, F_SETPIPE_SZ, 4096);
+		else { int sz = 2304; setsockopt(X.fd, SOL_SOCKET, SO_SNDBUF, &sz, sizeof sz); setsockopt(X.peer_fd, SOL_SOCKET, SO_SNDBUF, &sz, sizeof sz); setsockopt(X.fd, SOL_SOCKET, SO_RCVBUF, &sz, sizeof sz); setsockopt(X.peer_fd, SOL_SOCKET, SO_RCVBUF, &sz, sizeof sz); }
+	}
+	X.peer_got = malloc(MAXBYTES);
+	sim_io_watch(X.fd, 1);
+	X.hq = X.hq_serial ? dispatch_queue_create("io-handlers", NULL) : dispatch_get_global_queue(0, 0);
+	sim_thread *th[2];
+	th[0] = sim_spawn(peer_thread, NULL, "peer");
+	th[1] = sim_spawn(client_thread, NULL, "io-client");
+	h_end_fault_phase(th + 1, 1, 2 * NSEC);
+	if (h_wait_until(io_done, NULL, LIVENESS_NS)) {
+		char b[200]; size_t o = 0;
+		for (int i = 0; i < X.nops; i++) { ioop *op = &X.ops[i]; if (op->submitted && !op->done_count && o + 50 < sizeof b) o += (size_t)snprintf(b + o, sizeof b - o, "the handler of dispatch_%s #%d never ran; ", X.is_read ? "read" : "write", op->idx); }
+		h_stuck("never-done", b);
+	}
+	h_settle(20 * MSEC);
+	// the descriptor is the caller's again once the handlers have run
+	if (!X.is_read) { close(X.fd); uint64_t t0 = sim_now(); while (!X.peer_done && sim_now() - t0 < 2 * NSEC) sim_sleep_ns(20 * MSEC); }
+	judge();
+	if (known_clause[0]) h_viol(known_clause, "%s", known_msg);
+	size_t tot = 0; for (int i = 0; i < X.nops; i++) tot += X.ops[i].ngot;
+	RES.counters[0] = X.nops; RES.counters[1] = (int64_t)tot; RES.counters[2] = sim_io_ncalls; RES.counters[5] = 1;
 	RES.nontrivial = sim_io_ncalls >= 2 && sim_st.switches > 10;
 }
 /* ---- random-access channel on a regular file (memfd): reads and writes at offsets, regions of one epoch are
@@ -457,6 +535,6 @@ static void c14_tune(sim_knobs *k, unsigned cfg, uint64_t *g) {
 		k->iofault_mask = (1u << IOF_SHORT) | (1u << IOF_EINTR) | (1u << IOF_EAGAIN);
 	}
 }
-static const char *const c14_names[] = { "operations", "bytes_delivered_or_unwritten", "intercepted_io_calls", "runs_with_stop", "file_channel_runs", NULL };
+static const char *const c14_names[] = { "operations", "bytes_delivered_or_unwritten", "intercepted_io_calls", "runs_with_stop", "file_channel_runs", "convenience_api_runs", "derived_channel_runs", NULL };
 const prop_def prop_C14 = { "C14", c14_tune, c14_run, c14_names,
 	"non-trivial: the library made at least two read/write system calls on the descriptor under test and more than 10 context switches happened; distinct = distinct schedule signatures among those" };
